@@ -6,7 +6,7 @@ CHECKS = {
          "A stress mix of every public entry point (blocking writers, equal sizes so pools collide) runs in a -race build and in a normal build where each concurrent result must equal its solo result; multi-worker lossy encodes run under seeded perturbation policies at the hooked row-synchronisation points, must equal the single-worker bytes, and their event traces are checked against the row protocol; a hung child is a deadlock only if its goroutine dump shows workers parked in the row wait; every internal parallel section is entered above its size threshold with forced worker counts and 3 calls in flight, results must equal the one-worker solo result (std and -race builds).",
          "Schedules are sampled, not enumerated; the trace order is sound because MB-end is logged before the signal and MB-begin after the wait returns.", "3/C10"),
  "C11": ("exploration", "history monitor: every result in long-lived processes vs the same call as first call of a fresh process; returned buffers re-hashed; pool-reuse counters prove collisions",
-         "All ordered pairs of a 43-entry core plus random call sequences (length 3..30) over a catalogue built to collide in every pool, with GC disabled (pooled objects survive) or forced between calls; any deviation from the fresh-process reference or any change to a previously returned buffer is a violation.",
+         "All ordered pairs of a 43-entry core plus random call sequences (length 3..30) over a catalogue built to collide in every pool (Encode/Decode, animation, mux, the public sharpyuv functions, readers that work on the caller's own bytes), with GC disabled (pooled objects survive) or forced between calls; any deviation from the fresh-process reference or any change to a previously returned buffer is a violation.",
          "Pool hook H4 counts actual reuse; a run in which some pool was never hit fails as 'observed nothing'.", "3/C11"),
  "C13": ("exploration", "three-build differential (AVX2 / SSE2 / portable overlay build) on pipeline digests + cross-compilation of the module for GOOS/GOARCH targets",
          "The same case list is executed by three builds of the current tree and all digests must coincide; go build ./... is run for 14 representative targets in quick and for every `go tool dist list` pair in thorough.",
@@ -15,7 +15,7 @@ CHECKS = {
          "A build-tag hook exports the planes the encoder used as prediction reference after the pass whose tokens are emitted (and again at return); they must equal libwebp's bypass_filtering output, x/image's unfiltered output and, for filter-off streams, webp.Decode, bit for bit, over the lossy option space incl. multi-pass/target-size and forced worker counts.",
          "Hook H5 (internal/verifhook.FramePass) is add-only; libwebp/x-image agreement is required before a verdict (otherwise inconclusive).", "3/C06"),
  "C08": ("exploration", "history round-trip monitor for the lossless animation encoder (added canvases as oracle; AnimDecoder and an independent compositor both play the file back)",
-         "Random frame histories from a mutation grammar are encoded, read back and played; the normalised picture sequences, per-picture display times, total duration, loop count and canvas size must match; 1/8 of the histories add pre-encoded frames (AddRawFrame, AddFrame(NewBitstreamFrame)) alone, after one picture or in the middle of a history (durations up to 2^24 ms and above), expected canvases from the reference compositor; a script forces duration-overflow filler frames followed by an erase.",
+         "Random frame histories from a mutation grammar are encoded, read back and played; pictures smaller than the canvas occur anywhere in a history; the normalised picture sequences, per-picture display times, total duration, loop count and canvas size must match; 1/8 of the histories add pre-encoded frames (AddRawFrame, AddFrame(NewBitstreamFrame)) alone, after one picture or in the middle of a history (durations up to 2^24 ms and above), expected canvases from the reference compositor; a script forces duration-overflow filler frames followed by an erase.",
          "Both sides are normalised by merging consecutive identical canvases; transparent pixels compare equal regardless of colour.", "3/C08"),
  "C09": ("exploration", "reference-model monitor: AnimDecoder vs an independent compositing model on programmatic animations, incl. exhaustive small domain and blend arithmetic",
          "Every snapshot of every explored animation must equal the model's canvas; Reset must replay identically; returned snapshots are re-hashed after later calls; one animation in four hands its frames over as RGBA / 16-bit / paletted / wrapper / shifted-origin and sub-image NRGBA images. Thorough enumerates the complete 2-frame small domain (6.7M tuples) and all 2^32 (src a,dst a,src c,dst c) blend cases.",
@@ -24,25 +24,25 @@ CHECKS = {
          "Alpha-bearing frame histories x Lossless x AllowMixed x Quality x Kmin/Kmax; played-back alpha planes must equal the source alpha planes; codecs actually used per frame are read back.",
          "Frames with identical alpha planes are merged on both sides before comparison; colour is not compared.", "3/C18"),
  "C14": ("exploration", "history monitor: random Muxer call sequences checked against a model of what was put in, an independent RIFF walker, the Demuxer, the second parser and libwebp",
-         "Each accepted history's output is demuxed and compared field by field with the history (payload bytes, alpha, offsets/2*2, clamped durations, blend/dispose, loop, background, canvas, metadata); rejected histories must write nothing; histories include Assemble in the middle and twice, offsets and canvases at the 24-bit field limits and at 2^30 pixels, AddChunk with ids of its own, ALPH-prefixed lossless payloads, metadata at the 100 MiB limit and summing above 256 MiB.",
+         "Each accepted history's output is demuxed and compared field by field with the history (payload bytes, alpha, offsets/2*2, clamped durations, blend/dispose, loop, background, canvas, metadata); rejected histories must write nothing; histories include Assemble in the middle and twice, offsets and canvases at the 24-bit field limits and at 2^30 pixels, AddChunk with ids of its own, ALPH-prefixed lossless payloads, metadata at the 100 MiB limit and summing above 256 MiB; every fourth history hands its payloads over as adjacent sub-slices of one buffer.",
          "Model of accepted input: durations clamped to [0,2^24-1], loop count to [0,65535], animated iff >1 frame or a positive duration. D11 (still with canvas != image) is a recorded known finding.", "3/C14"),
  "C16": ("exploration", "cross-view agreement monitor (Decode result as oracle for the header queries; five container views compared pairwise)",
-         "For every still that Decode accepts the header queries must succeed and match the decoded image; GetFeatures, DecodeConfig, Demuxer, animation reader and the independent walker must agree on canvas, animation flag, frame count, loop count; corpus includes Muxer-assembled animations with sub-rectangle first frames and canvases beyond 16 bits.",
+         "For every still that Decode accepts the header queries must succeed and match the decoded image; GetFeatures, DecodeConfig, Demuxer, animation reader and the independent walker must agree on canvas, animation flag, frame count, loop count; corpus includes Muxer-assembled animations with sub-rectangle first frames and canvases beyond 16 bits, and hand-assembled animations of 4095..65537 frames around any frame-count limit (accepted by all views or by none).",
          "Hand-assembled variants that the strict walker flags are only compared among the views that accept them.", "3/C16"),
  "C17": ("fault_enumeration", "exhaustive truncation monitor: every prefix of every corpus file through Decode/DecodeConfig/GetFeatures",
          "Every cut point 0..len-1 of each file in a diverse corpus of valid stills is enumerated (exhaustive per file); a prefix result must be an error or equal the complete file's.",
          "Corpus files are small (<= 64 px) so that len(F) decodes per file stay cheap; thorough adds larger files with all cuts in the last 4 KiB and every 97th elsewhere.", "3/C17"),
  "C05": ("exploration", "hostile-input monitor in supervised child processes (recover/fatal/watchdog/alloc accounting/result well-formedness) + CPU-time scaling probe",
-         "Structure-aware mutation and hand-made declaration bombs against every decoding entry point (incl. ReadChunk, animation.Decode, readers without Len(), short reads, forced internal worker counts, extreme-aspect and Muxer-assembled seeds); each child logs the case before executing it, runs under ulimit -v, and measures TotalAlloc against a bound linear in input length and declared pixel area; hangs are judged only after three isolated re-runs; 108 repeated-unit input families are timed (process CPU time) at n and 4n units, super-linear growth is a violation only at ratio > 10 with >= 0.4 s CPU three times in a row.",
+         "Structure-aware mutation and hand-made declaration bombs against every decoding entry point (incl. ReadChunk, animation.Decode, readers without Len(), short reads, forced internal worker counts, extreme-aspect and Muxer-assembled seeds; playback past the end, Reset and replay, DecodeFrames called twice); each child logs the case before executing it, runs under ulimit -v, and measures TotalAlloc against a bound linear in input length and declared pixel area; hangs are judged only after three isolated re-runs; 108 repeated-unit input families are timed (process CPU time) at n and 4n units, super-linear growth is a violation only at ratio > 10 with >= 0.4 s CPU three times in a row.",
          "Declared area comes from an over-approximating scanner; inputs whose declared-size bound exceeds 1.5 GiB are not executed (counted as inconclusive).", "3/C05"),
  "C12": ("exploration", "cross-process differential monitor over GOMAXPROCS values",
-         "The same case list runs in child processes of one binary with GOMAXPROCS in {1,2,3,4,8,16,32}; digests of Encode bytes (every second lossy case with all options drawn, dithering included), Decode pixels and parallel frame decoding (also of animations with several undecodable frames) must equal the GOMAXPROCS=1 child's.",
+         "The same case list runs in child processes of one binary with GOMAXPROCS in {1,2,3,4,8,16,32}; digests of Encode bytes (every second lossy case with all options drawn, dithering included; a lossy-alpha family over alpha content x AlphaFiltering x AlphaCompression x AlphaQuality), Decode pixels and parallel frame decoding (also of animations with several undecodable frames) must equal the GOMAXPROCS=1 child's.",
          "Corpus built to sit above and just below every parallel threshold in the code base at the pinned commit.", "3/C12"),
  "C03": ("exploration", "differential decode monitor: VP8L stream synthesizer + libwebp-encoded files vs libwebp reference decoder",
          "Decodes thousands of syntactically valid VP8L streams that this package's encoder never emits (all transform orders, packings, cache/meta sizes, code shapes, distance codes) and compares every pixel with libwebp's decode; coverage counters come from the synthesizer's own choices.",
          "libwebp 1.2.4 is trusted as the definition of the format; a stream counts as valid iff libwebp accepts it.", "3/C03"),
  "C04": ("exploration", "differential decode monitor: VP8 key-frame + ALPH synthesizers and libwebp-encoded files vs libwebp (planes, RGBA), x/image as envelope check",
-         "Bit-exact comparison of Y/Cb/Cr (loop filter included) and of alpha+upsampled colour against libwebp over synthesized key frames covering the header/mode/token syntax (also with coefficients far beyond what an encoder produces), and over libwebp-written files.",
+         "Bit-exact comparison of Y/Cb/Cr (loop filter included) and of alpha+upsampled colour against libwebp over synthesized key frames covering the header/mode/token syntax (also with coefficients far beyond what an encoder produces), and over libwebp-written files; every ALPH file is also read twice from the same byte slice through the animation reader.",
          "libwebp 1.2.4 trusted as RFC 6386/WebP reference; outside the envelope where libwebp and x/image agree a disagreement of the two references is inconclusive.", "3/C04"),
  "C15": ("exploration", "metadata round-trip monitor (blobs as oracle, metadata-free encode as reference, independent walker)",
          "Every subset of ICC/EXIF/XMP x blob classes x output kinds; blobs read back three ways, flags<=>chunks via the walker, payload/pixel identity against the metadata-free encode; two thirds of the cases draw every other encoder / animation option from its legal values.",
@@ -54,7 +54,7 @@ CHECKS = {
  "C01": ("exploration", "round-trip monitor: source image as oracle, libwebp for attribution",
          "Runs Encode(lossless)->Decode on a stratified grid of image classes x Method x Quality x Exact x Go types x metadata and compares every pixel with the source; observes executions only, so it gives 'held on N round trips with these transform signatures', which is the right level for an all-inputs property of a codec.",
          "Trusts Go's color.NRGBAModel as the definition of the 8-bit non-premultiplied reading; libwebp 1.2.4 only for attribution.", "3/C01"),
- "C19": ("exploration", "byte-equality monitor over storage placements", "Same pixels stored in 20+ ways (views, strides, origins, wrapped views, types at and away from the origin) must give byte-identical files and leave every caller buffer untouched; observes executions over image classes x options.", "Canonical reference = tight *image.NRGBA at origin; for non-NRGBA types the reference is the concrete type itself vs the same colours behind a wrapper, and for the 16-bit types also the NRGBA of their 8-bit reading.", "3/C19"),
+ "C19": ("exploration", "byte-equality monitor over storage placements", "Same pixels stored in 20+ ways (views, strides, origins, wrapped views, types at and away from the origin) must give byte-identical files and leave every caller buffer untouched, with and without metadata (streaming and buffered writers); observes executions over image classes x options.", "Canonical reference = tight *image.NRGBA at origin; for non-NRGBA types the reference is the concrete type itself vs the same colours behind a wrapper, and for the 16-bit types also the NRGBA of their 8-bit reading.", "3/C19"),
  "C07": ("exploration", "round-trip monitor on the alpha plane (source alpha as oracle; libwebp for attribution)", "Compares the decoded alpha plane with the source over alpha pattern x AlphaCompression x AlphaFiltering x AlphaQuality x Method grids; quantised case checked against the documented level formula.", "Level formula transcribed from the encoder documentation (2+q/5, 16+8(q-70)); monotone-map reading of \"only quantised\".", "3/C07"),
  "C02": ("exploration", "structural conformance monitor + differential decode (libwebp, x/image)",
          "Every emitted file is walked by an independent strict RIFF/VP8/VP8L/ALPH walker and decoded by three decoders whose outputs must agree (planes, and the colours the returned image reports; also through the animation reader); options drawn field-by-field from boundary sets with measured pairwise coverage.",
